@@ -21,7 +21,7 @@ SEQ_PROPS = ['EnoughMonotone', 'SharesOnlyGrow', 'CacheStable']
 
 
 def seq_model(ck, tier, emit):
-    runs = [(3, 1, 2, 'full'), (3, 1, 3, 'adds'), (4, 2, 3, 'adds')] if tier == 'quick' else [(3, 1, 3, 'full'), (4, 2, 3, 'full'), (3, 1, 5, 'adds'), (4, 2, 4, 'adds')]
+    runs = [(3, 1, 2, 'full'), (3, 1, 3, 'adds'), (4, 2, 3, 'adds'), (3, 1, 4, 'core')] if tier == 'quick' else [(3, 1, 3, 'full'), (4, 2, 3, 'full'), (3, 1, 4, 'adds'), (3, 1, 5, 'core'), (4, 2, 5, 'core')]
     cases = []
     for n, t, L, a in runs:
         res = vlib.tlc(SPEC, 'ThresholdSigSeq', vlib.cfg({'N': n, 'T': t, 'MaxLen': L, 'Alphabet': a},
